@@ -768,6 +768,30 @@ impl Engine for Math {
         ev.class(OP_NAMES[op as usize]);
         ev
     }
+    fn pair_gens(&self) -> Vec<&'static str> {
+        vec!["C12", "C13", "C14", "C15", "C16"]
+    }
+    fn exec_raw(&self, _prop: &str, c: &Case) -> Outs {
+        let (_, _, pk) = pair_info(c.lay2 as usize % NPAIRS);
+        if !accepts(pk, c.op) {
+            return Vec::new();
+        }
+        // the loop counter is not an output of the library: only results are compared
+        exec(c, if c.op == POWI { NO_LIMIT } else { SOFT_LIMIT }).into_iter().filter(|(l, _)| *l != "iters").collect()
+    }
+    fn pair_class(&self, _prop: &str, c: &Case, _label: &str, _rel: &[(String, Out)]) -> vcore::pair::PairClass {
+        use vcore::pair::PairClass;
+        if matches!(c.op, SIN | COS | TAN) {
+            // plain arithmetic inside, not Result: asserted inside C12's angle domain only
+            let (sl, _, _) = pair_info(c.lay2 as usize % NPAIRS);
+            let x = sl.val(c.a & sl.mask()).to_f64_approx() / 2f64.powi(sl.f as i32);
+            let lim = if c.op == TAN { 100.0 } else { 200.0 };
+            if x.abs() > lim || (c.op == TAN && x.tan().abs() > 64.0 * (1.0 - 2f64.powi(-30))) {
+                return PairClass::Unclassified;
+            }
+        }
+        PairClass::NeverPanic
+    }
     fn selftest(&self) -> Result<u64, String> {
         if isqrt(&Big::from_u64(99)) != Big::from_u64(9) || isqrt(&Big::from_u64(100)) != Big::from_u64(10) || isqrt(&Big::pow2(200)) != Big::pow2(100) {
             return Err("math isqrt selftest".into());
